@@ -5,7 +5,7 @@ import itertools
 import numpy as np
 
 from symx import term as tm, oracle
-from symx.sym import Ctx, use_ctx, sym, symarray, SymReal
+from symx.sym import Ctx, use_ctx, sym, symarray, SymReal, Inconclusive
 from symx.npproxy import patched
 from symx.harness import Ob, FuncTrace, JetRun, source_digest
 from . import gr
@@ -17,7 +17,7 @@ POINT_RES = ((3, 1.0), (3, 0.5))
 
 
 class FluidSetup:
-    def __init__(self, pattern='fluid'):
+    def __init__(self, pattern='fluid', rho0_case='ge0'):
         self.al = symarray('al', ())
         self.be = symarray('b', (3,))
         self.ga = symarray('g', (3, 3), symmetric=True)
@@ -40,12 +40,15 @@ class FluidSetup:
         self.pattern = pattern
         if pattern == 'fluid':
             self.rho0, self.eps, self.p = sym('rho0'), sym('eps'), sym('press')
+            self.rho0_case = rho0_case
+            if rho0_case == 'zero':
+                self.rho0 = SymReal(tm.ZERO)
             self.W = sym('W')
             self.v = [sym(f'v{i}') for i in range(3)]
             v2 = sum(ga[i, j] * self.v[i] * self.v[j] for i in range(3) for j in range(3))
             self.pre += [tm.lt(tm.ZERO, self.W.t),
                          tm.eq((self.W * self.W * (1 - v2)).t, tm.ONE),
-                         tm.le(tm.ZERO, self.rho0.t)]
+                         (tm.lt(tm.ZERO, self.rho0.t) if rho0_case == 'gt0' else tm.le(tm.ZERO, self.rho0.t))]
             inputs.update(rho0=gr.grid(self.rho0), eps=gr.grid(self.eps), press=gr.grid(self.p),
                           w_lorentz=gr.grid(self.W), velx=gr.grid(self.v[0]), vely=gr.grid(self.v[1]),
                           velz=gr.grid(self.v[2]))
@@ -101,107 +104,116 @@ def sampler_moving(S):
 def build(tier):
     blocks = []
     with patched():
-        S = FluidSetup('fluid')
-        c = Ctx(pre=S.pre, fork=False)
-        obs = []
-        with use_ctx(c):
-            rel = S.run.symbolic_rel()
-            al, W, p = S.al[0, 0, 0], S.W, S.p
-            rho = S.rho0 * (1 + S.eps)
-            ga, g4, gi4, gi3 = gr.ungrid(S.ga), S.g4, S.gi4, S.gi3
-            v_up = S.v
-            v_dn = [sum(ga[i, j] * v_up[j] for j in range(3)) for i in range(3)]
-            u_up = [W / al] + [W * (v_up[i] - gr.ungrid(S.be)[i] / al) for i in range(3)]
-            u_dn = [sum(g4[a, b] * u_up[b] for b in range(4)) for a in range(4)]
+        def fluid_block(S, name):
+            c = Ctx(pre=S.pre, fork=False)
+            obs = []
+            with use_ctx(c):
+                rel = S.run.symbolic_rel()
+                al, W, p = S.al[0, 0, 0], S.W, S.p
+                rho = S.rho0 * (1 + S.eps)
+                ga, g4, gi4, gi3 = gr.ungrid(S.ga), S.g4, S.gi4, S.gi3
+                v_up = S.v
+                v_dn = [sum(ga[i, j] * v_up[j] for j in range(3)) for i in range(3)]
+                u_up = [W / al] + [W * (v_up[i] - gr.ungrid(S.be)[i] / al) for i in range(3)]
+                u_dn = [sum(g4[a, b] * u_up[b] for b in range(4)) for a in range(4)]
 
-            def P(name, impl, want, group, get=None):
-                obs.append(Ob(name, impl, want, S.pre, group=group, get=get))
+                def P(name, impl, want, group, get=None):
+                    obs.append(Ob(name, impl, want, S.pre, group=group, get=get))
 
-            uu, ud = rel['uup4'], rel['udown4']
-            for a in range(4):
-                P(f'uup4[{a}]', uu[a, 0, 0, 0], u_up[a], 'uup4 == (W/alpha, W(v^i - beta^i/alpha))',
-                  get=lambda r, a=a: r['uup4'][a])
-                P(f'udown4[{a}]', ud[a, 0, 0, 0], u_dn[a], 'udown4 == g u^mu',
-                  get=lambda r, a=a: r['udown4'][a])
-            P('u^mu u_mu', sum(uu[a, 0, 0, 0] * ud[a, 0, 0, 0] for a in range(4)), -1, 'u.u == -1')
-            P('g_mn u^m u^n', sum(g4[a, b] * uu[a, 0, 0, 0] * uu[b, 0, 0, 0] for a in range(4) for b in range(4)),
-              -1, 'u.u == -1')
-            P('g^mn u_m u_n', sum(gi4[a, b] * ud[a, 0, 0, 0] * ud[b, 0, 0, 0] for a in range(4) for b in range(4)),
-              -1, 'u.u == -1')
-            hd, hm, hu = rel['hdown4'], rel['hmixed4'], rel['hup4']
-            h_or = oracle.arr((4, 4))
-            for a in range(4):
-                for b in range(4):
-                    h_or[a, b] = g4[a, b] + u_dn[a] * u_dn[b]
-            T, Tu = rel['Tdown4'], rel['Tup4']
-            for a in range(4):
-                P(f'hmixed4 u [{a}]', sum(hm[a, b, 0, 0, 0] * uu[b, 0, 0, 0] for b in range(4)), 0,
-                  'h^mu_nu u^nu == 0')
-                for b in range(a, 4):
-                    P(f'hdown4[{a},{b}]', hd[a, b, 0, 0, 0], h_or[a, b], 'hdown4 == g + u_mu u_nu',
-                      get=lambda r, a=a, b=b: r['hdown4'][a, b])
-                    P(f'hup4[{a},{b}]', hu[a, b, 0, 0, 0],
-                      sum(gi4[a, c2] * gi4[b, d] * h_or[c2, d] for c2 in range(4) for d in range(4)),
-                      'hup4 == raise(hdown4)')
-                    P(f'hmixed4[{a},{b}]', hm[a, b, 0, 0, 0], sum(gi4[a, c2] * h_or[c2, b] for c2 in range(4)),
-                      'hmixed4 == g^{mu a} h_{a nu}')
-                    Tw = rho * u_dn[a] * u_dn[b] + p * h_or[a, b]
-                    P(f'Tdown4[{a},{b}]', T[a, b, 0, 0, 0], Tw, 'Tdown4 == rho u_mu u_nu + p h_mu_nu',
-                      get=lambda r, a=a, b=b: r['Tdown4'][a, b])
-                    P(f'Tup4[{a},{b}]', Tu[a, b, 0, 0, 0],
-                      sum(gi4[a, c2] * gi4[b, d] * (rho * u_dn[c2] * u_dn[d] + p * h_or[c2, d])
-                          for c2 in range(4) for d in range(4)), 'Tup4 == raise(T)')
-            P('Ttrace(cached T)', rel['Ttrace'][0, 0, 0], -rho + 3 * p, 'Ttrace == -rho + 3p',
-              get=lambda r: r['Ttrace'])
-            E = (rho + p) * W * W
-            P('rho', rel['rho'][0, 0, 0], rho, 'rho == rho0 (1+eps)')
-            P('rho_n', rel['rho_n'][0, 0, 0], E - p, 'rho_n == (rho+p) W^2 - p', get=lambda r: r['rho_n'])
-            fd_, fu_ = rel['fluxdown3_n'], rel['fluxup3_n']
-            Sd, Su = rel['Stressdown3_n'], rel['Stressup3_n']
-            an = rel['anisotropic_press_down3_n']
-            for i in range(3):
-                P(f'fluxdown3_n[{i}]', fd_[i, 0, 0, 0], E * v_dn[i], 'fluxdown3_n == (rho+p) W^2 v_i',
-                  get=lambda r, i=i: r['fluxdown3_n'][i])
-                P(f'fluxup3_n[{i}]', fu_[i, 0, 0, 0], E * v_up[i], 'fluxup3_n == (rho+p) W^2 v^i',
-                  get=lambda r, i=i: r['fluxup3_n'][i])
-                for j in range(i, 3):
-                    P(f'Stressdown3_n[{i},{j}]', Sd[i, j, 0, 0, 0], E * v_dn[i] * v_dn[j] + p * ga[i, j],
-                      'Stressdown3_n == (rho+p) W^2 v_i v_j + p gamma_ij',
-                      get=lambda r, i=i, j=j: r['Stressdown3_n'][i, j])
-                    P(f'Stressup3_n[{i},{j}]', Su[i, j, 0, 0, 0], E * v_up[i] * v_up[j] + p * gi3[i, j],
-                      'Stressup3_n == raise')
-            v2 = sum(v_up[i] * v_dn[i] for i in range(3))
-            P('Stresstrace_n', rel['Stresstrace_n'][0, 0, 0], E * v2 + 3 * p, 'Stresstrace_n == E v^2 + 3p',
-              get=lambda r: r['Stresstrace_n'])
-            P('press_n', rel['press_n'][0, 0, 0], (E * v2 + 3 * p) / 3, 'press_n == S/3')
-            P('trace(anisotropic_press)', sum(gi3[i, j] * an[i, j, 0, 0, 0] for i in range(3) for j in range(3)),
-              0, 'anisotropic pressure trace-free')
-            sg = oracle.det(ga).sqrt() if hasattr(oracle.det(ga), 'sqrt') else None
-            D = rel['conserved_D'][0, 0, 0]
-            P('conserved_D', D, S.rho0 * W * sg, 'conserved_D == rho0 W sqrt(gamma)',
-              get=lambda r: r['conserved_D'])
-            P('conserved_E', rel['conserved_E'][0, 0, 0], S.rho0 * W * sg * S.eps, 'conserved_E == D eps')
-            # angular momentum density J_i = eps_ijk x^j S^k with free coordinate values
-            xs = [sym('cx'), sym('cy'), sym('cz')]
-            cc = np.empty((3, 1, 1, 1), dtype=object)
-            for i_ in range(3):
-                cc[i_, 0, 0, 0] = xs[i_]
-            rel.fd.cartesian_coords = cc
-            Jd, Ju = rel['angmomdown3_n'], rel['angmomup3_n']
-            Sup = [E * v_up[i_] for i_ in range(3)]
-            Jw = []
-            for i_ in range(3):
-                tot = 0
-                for j_ in range(3):
-                    for k_ in range(3):
-                        if len({i_, j_, k_}) == 3:
-                            tot = tot + oracle.perm_sign((i_, j_, k_)) * sg * xs[j_] * Sup[k_]
-                Jw.append(tot)
-            for i_ in range(3):
-                P(f'angmomdown3_n[{i_}]', Jd[i_, 0, 0, 0], Jw[i_], 'angmomdown3_n == sqrt(gamma) [ijk] x^j S^k')
-                P(f'angmomup3_n[{i_}]', Ju[i_, 0, 0, 0], sum(gi3[i_, j_] * Jw[j_] for j_ in range(3)), 'angmomup3_n == raise(J_i)')
-        blocks.append(dict(name='fluid', setup=S, run=S.run, obs=obs, ctx=c,
-                           samplers=[S.sampler(), sampler_moving(S)]))
+                uu, ud = rel['uup4'], rel['udown4']
+                for a in range(4):
+                    P(f'uup4[{a}]', uu[a, 0, 0, 0], u_up[a], 'uup4 == (W/alpha, W(v^i - beta^i/alpha))',
+                      get=lambda r, a=a: r['uup4'][a])
+                    P(f'udown4[{a}]', ud[a, 0, 0, 0], u_dn[a], 'udown4 == g u^mu',
+                      get=lambda r, a=a: r['udown4'][a])
+                P('u^mu u_mu', sum(uu[a, 0, 0, 0] * ud[a, 0, 0, 0] for a in range(4)), -1, 'u.u == -1')
+                P('g_mn u^m u^n', sum(g4[a, b] * uu[a, 0, 0, 0] * uu[b, 0, 0, 0] for a in range(4) for b in range(4)),
+                  -1, 'u.u == -1')
+                P('g^mn u_m u_n', sum(gi4[a, b] * ud[a, 0, 0, 0] * ud[b, 0, 0, 0] for a in range(4) for b in range(4)),
+                  -1, 'u.u == -1')
+                hd, hm, hu = rel['hdown4'], rel['hmixed4'], rel['hup4']
+                h_or = oracle.arr((4, 4))
+                for a in range(4):
+                    for b in range(4):
+                        h_or[a, b] = g4[a, b] + u_dn[a] * u_dn[b]
+                T, Tu = rel['Tdown4'], rel['Tup4']
+                for a in range(4):
+                    P(f'hmixed4 u [{a}]', sum(hm[a, b, 0, 0, 0] * uu[b, 0, 0, 0] for b in range(4)), 0,
+                      'h^mu_nu u^nu == 0')
+                    for b in range(a, 4):
+                        P(f'hdown4[{a},{b}]', hd[a, b, 0, 0, 0], h_or[a, b], 'hdown4 == g + u_mu u_nu',
+                          get=lambda r, a=a, b=b: r['hdown4'][a, b])
+                        P(f'hup4[{a},{b}]', hu[a, b, 0, 0, 0],
+                          sum(gi4[a, c2] * gi4[b, d] * h_or[c2, d] for c2 in range(4) for d in range(4)),
+                          'hup4 == raise(hdown4)')
+                        P(f'hmixed4[{a},{b}]', hm[a, b, 0, 0, 0], sum(gi4[a, c2] * h_or[c2, b] for c2 in range(4)),
+                          'hmixed4 == g^{mu a} h_{a nu}')
+                        Tw = rho * u_dn[a] * u_dn[b] + p * h_or[a, b]
+                        P(f'Tdown4[{a},{b}]', T[a, b, 0, 0, 0], Tw, 'Tdown4 == rho u_mu u_nu + p h_mu_nu',
+                          get=lambda r, a=a, b=b: r['Tdown4'][a, b])
+                        P(f'Tup4[{a},{b}]', Tu[a, b, 0, 0, 0],
+                          sum(gi4[a, c2] * gi4[b, d] * (rho * u_dn[c2] * u_dn[d] + p * h_or[c2, d])
+                              for c2 in range(4) for d in range(4)), 'Tup4 == raise(T)')
+                P('Ttrace(cached T)', rel['Ttrace'][0, 0, 0], -rho + 3 * p, 'Ttrace == -rho + 3p',
+                  get=lambda r: r['Ttrace'])
+                E = (rho + p) * W * W
+                P('rho', rel['rho'][0, 0, 0], rho, 'rho == rho0 (1+eps)')
+                P('rho_n', rel['rho_n'][0, 0, 0], E - p, 'rho_n == (rho+p) W^2 - p', get=lambda r: r['rho_n'])
+                fd_, fu_ = rel['fluxdown3_n'], rel['fluxup3_n']
+                Sd, Su = rel['Stressdown3_n'], rel['Stressup3_n']
+                an = rel['anisotropic_press_down3_n']
+                for i in range(3):
+                    P(f'fluxdown3_n[{i}]', fd_[i, 0, 0, 0], E * v_dn[i], 'fluxdown3_n == (rho+p) W^2 v_i',
+                      get=lambda r, i=i: r['fluxdown3_n'][i])
+                    P(f'fluxup3_n[{i}]', fu_[i, 0, 0, 0], E * v_up[i], 'fluxup3_n == (rho+p) W^2 v^i',
+                      get=lambda r, i=i: r['fluxup3_n'][i])
+                    for j in range(i, 3):
+                        P(f'Stressdown3_n[{i},{j}]', Sd[i, j, 0, 0, 0], E * v_dn[i] * v_dn[j] + p * ga[i, j],
+                          'Stressdown3_n == (rho+p) W^2 v_i v_j + p gamma_ij',
+                          get=lambda r, i=i, j=j: r['Stressdown3_n'][i, j])
+                        P(f'Stressup3_n[{i},{j}]', Su[i, j, 0, 0, 0], E * v_up[i] * v_up[j] + p * gi3[i, j],
+                          'Stressup3_n == raise')
+                v2 = sum(v_up[i] * v_dn[i] for i in range(3))
+                P('Stresstrace_n', rel['Stresstrace_n'][0, 0, 0], E * v2 + 3 * p, 'Stresstrace_n == E v^2 + 3p',
+                  get=lambda r: r['Stresstrace_n'])
+                P('press_n', rel['press_n'][0, 0, 0], (E * v2 + 3 * p) / 3, 'press_n == S/3')
+                P('trace(anisotropic_press)', sum(gi3[i, j] * an[i, j, 0, 0, 0] for i in range(3) for j in range(3)),
+                  0, 'anisotropic pressure trace-free')
+                sg = oracle.det(ga).sqrt() if hasattr(oracle.det(ga), 'sqrt') else None
+                D = rel['conserved_D'][0, 0, 0]
+                P('conserved_D', D, S.rho0 * W * sg, 'conserved_D == rho0 W sqrt(gamma)',
+                  get=lambda r: r['conserved_D'])
+                P('conserved_E', rel['conserved_E'][0, 0, 0], S.rho0 * W * sg * S.eps, 'conserved_E == D eps')
+                # angular momentum density J_i = eps_ijk x^j S^k with free coordinate values
+                xs = [sym('cx'), sym('cy'), sym('cz')]
+                cc = np.empty((3, 1, 1, 1), dtype=object)
+                for i_ in range(3):
+                    cc[i_, 0, 0, 0] = xs[i_]
+                rel.fd.cartesian_coords = cc
+                Jd, Ju = rel['angmomdown3_n'], rel['angmomup3_n']
+                Sup = [E * v_up[i_] for i_ in range(3)]
+                Jw = []
+                for i_ in range(3):
+                    tot = 0
+                    for j_ in range(3):
+                        for k_ in range(3):
+                            if len({i_, j_, k_}) == 3:
+                                tot = tot + oracle.perm_sign((i_, j_, k_)) * sg * xs[j_] * Sup[k_]
+                    Jw.append(tot)
+                for i_ in range(3):
+                    P(f'angmomdown3_n[{i_}]', Jd[i_, 0, 0, 0], Jw[i_], 'angmomdown3_n == sqrt(gamma) [ijk] x^j S^k')
+                    P(f'angmomup3_n[{i_}]', Ju[i_, 0, 0, 0], sum(gi3[i_, j_] * Jw[j_] for j_ in range(3)), 'angmomup3_n == raise(J_i)')
+            blocks.append(dict(name=name, setup=S, run=S.run, obs=obs, ctx=c,
+                               samplers=[S.sampler(), sampler_moving(S)]))
+
+        # rho0 >= 0 in one run when the real code does not branch on rho0 on these paths; if it does (undecided branch in
+        # the non-forking harness), the admissible domain is split at its boundary: rho0 > 0 and rho0 == 0 exactly
+        try:
+            fluid_block(FluidSetup('fluid'), 'fluid')
+        except Inconclusive:
+            blocks[:] = [b_ for b_ in blocks if not b_['name'].startswith('fluid')]
+            fluid_block(FluidSetup('fluid', rho0_case='gt0'), 'fluid[rho0>0]')
+            fluid_block(FluidSetup('fluid', rho0_case='zero'), 'fluid[rho0=0]')
 
         # enthalpy-dependent quantities need rho0 > 0 (no 0/0 demanded of the code)
         S2 = FluidSetup('fluid')
@@ -264,15 +276,20 @@ def build(tier):
         blocks.append(dict(name='Tgiven', setup=ST, run=ST.run, obs=obsT, ctx=cT, samplers=[ST.sampler()]))
 
         # Ttrace branch taken when Tdown4 is NOT yet in data (fresh instance, fluid inputs)
-        S3 = FluidSetup('fluid')
-        c3 = Ctx(pre=S3.pre, fork=False)
-        with use_ctx(c3):
-            rel3 = S3.run.symbolic_rel()
-            rho3 = S3.rho0 * (1 + S3.eps)
-            ob = Ob('Ttrace(fresh instance)', rel3['Ttrace'][0, 0, 0], -rho3 + 3 * S3.p, S3.pre,
-                    group='Ttrace == -rho + 3p', get=lambda r: r['Ttrace'])
-        blocks.append(dict(name='Ttrace-fresh', setup=S3, run=S3.run, obs=[ob], ctx=c3,
-                           samplers=[S3.sampler(), sampler_moving(S3)]))
+        def ttrace_block(S3, name):
+            c3 = Ctx(pre=S3.pre, fork=False)
+            with use_ctx(c3):
+                rel3 = S3.run.symbolic_rel()
+                rho3 = S3.rho0 * (1 + S3.eps)
+                ob = Ob(f'Ttrace(fresh instance){name}', rel3['Ttrace'][0, 0, 0], -rho3 + 3 * S3.p, S3.pre,
+                        group='Ttrace == -rho + 3p', get=lambda r: r['Ttrace'])
+            blocks.append(dict(name='Ttrace-fresh' + name, setup=S3, run=S3.run, obs=[ob], ctx=c3,
+                               samplers=[S3.sampler(), sampler_moving(S3)]))
+        try:
+            ttrace_block(FluidSetup('fluid'), '')
+        except Inconclusive:
+            ttrace_block(FluidSetup('fluid', rho0_case='gt0'), '[rho0>0]')
+            ttrace_block(FluidSetup('fluid', rho0_case='zero'), '[rho0=0]')
     return blocks
 
 
